@@ -259,6 +259,21 @@ fn run_cli(q: &str, describe: bool) -> Result<Vec<String>, String> {
     Ok(String::from_utf8_lossy(&out.stdout).lines().map(|l| l.to_string()).collect())
 }
 
+/// A description line without a leading item marker (`3.`, `2)`, `-`, `*`): the statement fixes no
+/// layout, and an enumerated list numbers the same entry differently in different queries.
+fn unmarked(line: &str) -> String {
+    let t = line.trim_start();
+    let digits = t.chars().take_while(|c| c.is_ascii_digit()).count();
+    let rest = if digits > 0 && t[digits..].starts_with(|c| c == '.' || c == ')' || c == ':') {
+        &t[digits + 1..]
+    } else if t.starts_with(|c| c == '-' || c == '*' || c == '\u{2022}') && t[1..].starts_with(' ') {
+        &t[1..]
+    } else {
+        t
+    };
+    rest.trim().to_string()
+}
+
 /// The describe block of a query: what `--describe` prints beyond the plain output.
 fn cli_block(q: &str) -> Result<Vec<String>, String> {
     let plain = run_cli(q, false)?;
@@ -266,7 +281,7 @@ fn cli_block(q: &str) -> Result<Vec<String>, String> {
     if desc.len() < plain.len() || desc[..plain.len()] != plain[..] {
         return Err(format!("`any --describe -- {q:?}` does not start with the output of `any -- {q:?}`: {desc:?} vs {plain:?}"));
     }
-    Ok(desc[plain.len()..].to_vec())
+    Ok(desc[plain.len()..].iter().map(|l| unmarked(l)).collect())
 }
 
 /// Per worker: the block header (lines common to every single-phrase block) and each pool
